@@ -52,7 +52,11 @@ MIN = {'quick': {'distinct': 250,
                                  ('directory of gzip sources', 3),
                                  ('directory round trip in two steps', 5),
                                  ('driver: equals library composition', 150),
-                                 ('word with non-ASCII space character', 6)]
+                                 ('word with non-ASCII space character', 6),
+                                 ('TIGER-XML source without a node above the '
+                                  'top constituent', 12),
+                                 ('TIGER-XML source: one-token sentence '
+                                  'without any nonterminal', 4)]
                                 + [('driver with ' + o, 8) for o in (
                                     'gf', 'gf_split', 'gf_separator',
                                     'continuous', 'replace_parens',
@@ -126,6 +130,7 @@ def encode(fmt, bank, rng, enc, v4=False):
     # the sentence number is the last number of the id
     return codec.tigerxml_encode(bank, rng if rng.random() < 0.5 else None,
                                  encoding=enc,
+
                                  sid_format=rng.choice(['s%d', 's%d', '%d',
                                                         'tb3_s%d', 'c7.%d']))
 
@@ -197,7 +202,8 @@ def words_pool(rng, enc, paren_ok):
     return pool
 
 
-def make_bank(rng, cont, enc, paren_ok, export_src):
+def make_bank(rng, cont, enc, paren_ok, export_src, tiger_src=False):
+    top1 = tiger_src and rng.random() < 0.45
     pools = gen.Pools(words=words_pool(rng, enc, paren_ok),
                       pos=gen.POS + ['$.', '$,'],
                       morphs=gen.MORPHS + (['Nom.Sg.Masc.Pos.St', 'abcdefgh',
@@ -214,13 +220,35 @@ def make_bank(rng, cont, enc, paren_ok, export_src):
         bank.append(gen.tree(rng, n, pools, max_arity=rng.choice([2, 3, 4]),
                              p_unary=rng.choice([0, 0.2]),
                              moves=0 if cont else rng.choice([0, 1, 2, 3]),
-                             root_pieces=rng.choice([1, 1, 2]), sid=sid))
+                             root_pieces=1 if top1 else rng.choice([1, 1, 2]),
+                             sid=sid))
         sid += rng.choice([1, 1, 2])
+    if top1:
+        # as a TIGER-XML source a sentence whose root has one child is
+        # written without a node above that child (third-party files rooted
+        # in S, the tool's own output for bracket trees; a one-token sentence
+        # then has no <nt> at all): the reader puts VROOT on top, the former
+        # top node has no incoming edge and hence the default edge label
+        for sp in bank:
+            top = sp['root']['c'][0]
+            if len(sp['root']['c']) == 1 \
+                    and sp['root'].get('l', 'VROOT') == 'VROOT' \
+                    and not str(top.get('l') if 'c' in top else top.get('p')
+                                ).startswith('VROOT'):
+                sp['no_vroot'] = True
+                top['e'] = None
     return bank
 
 
 def write_src(ctx, fmt, bank, rng, enc, gz, v4):
     text = encode(fmt, bank, rng, enc, v4)
+    if fmt == 'tigerxml' and any(sp.get('no_vroot') for sp in bank):
+        ctx.stratum('TIGER-XML source without a node above the top '
+                    'constituent')
+        if any(sp.get('no_vroot') and 'c' not in sp['root']['c'][0]
+               for sp in bank):
+            ctx.stratum('TIGER-XML source: one-token sentence without any '
+                        'nonterminal')
     data = text.encode(enc)
     path = ctx.path('.' + fmt + ('.gz' if gz else ''))
     if gz:
@@ -774,7 +802,7 @@ def draw_driver(rng):
             'gz': sfmt != 'tigerxml' and rng.random() < 0.15}
     lim = 'latin-1' if 'latin-1' in (senc, denc) else 'utf-8'
     case['bank'] = make_bank(rng, cont, lim, sfmt in ('export', 'tigerxml'),
-                             sfmt == 'export')
+                             sfmt == 'export', sfmt == 'tigerxml')
     if punct_bank:
         for s_ in case['bank']:
             for t_ in gen.tokens_of(s_['root']):
@@ -802,7 +830,8 @@ def draw_pair(rng, sfmt, dfmt):
             'denc': denc, 'seed': rng.randrange(10 ** 6),
             'gz': sfmt != 'tigerxml' and rng.random() < 0.2,
             'v4': sfmt == 'export' and rng.random() < 0.4}
-    case['bank'] = make_bank(rng, cont, lim, paren_ok, sfmt == 'export')
+    case['bank'] = make_bank(rng, cont, lim, paren_ok, sfmt == 'export',
+                             sfmt == 'tigerxml')
     if 'export' not in (sfmt, dfmt) and rng.random() < 0.25:
         # characters that are white space for Unicode but not for these
         # formats (the export format cannot carry them: its reader splits
@@ -852,7 +881,8 @@ def shard(ctx):
                 'senc': 'utf-8', 'denc': 'utf-8',
                 'seed': rng.randrange(10 ** 6)}
         case['bank'] = make_bank(rng, cont, 'utf-8',
-                                 a in ('export', 'tigerxml'), a == 'export')
+                                 a in ('export', 'tigerxml'), a == 'export',
+                                 a == 'tigerxml')
         run_case(ctx, case)
     for i in ctx.indices(ctx.pick(48, 1500)):
         run_case(ctx, draw_opts(ctx.rng('opts', i)))
@@ -864,7 +894,8 @@ def shard(ctx):
         cont = 'brackets' in (a, b)
         case = {'kind': 'dir', 'src': a, 'dst': b, 'senc': 'utf-8',
                 'denc': 'utf-8', 'seed': rng.randrange(10 ** 6)}
-        case['banks'] = [make_bank(rng, cont, 'utf-8', False, False)
+        case['banks'] = [make_bank(rng, cont, 'utf-8', False, False,
+                                   a == 'tigerxml')
                          for _ in range(rng.randint(1, 4))]
         case['gz'] = rng.random() < 0.5
         case['bank'] = case['banks'][0]
